@@ -130,6 +130,33 @@ func mkCase(kind string, params []string, t *N) (*Case, error) {
 		}
 		n := lit(params[0])
 		c.Comps = []*N{u("tobits", n), u("num", u("tobits", n)), u("tobytes", arr(n)), u("tobytes", n)}
+	case "cat":
+		if err := need(0); err != nil {
+			return nil, err
+		}
+		if err := needTree(); err != nil {
+			return nil, err
+		}
+		if t.Op != "a" {
+			return nil, fmt.Errorf("cat: want an array")
+		}
+		c.Comps = []*N{u("tobits", t), u("tobytes", t)}
+		// depth first: every member that is not a literal is also observed on its own (Drv/C09.lean walkMembers)
+		var walk func(ms []*N)
+		walk = func(ms []*N) {
+			for _, m := range ms {
+				switch m.Op {
+				case "i", "fh", "s", "z", "t", "f", "o":
+				case "a":
+					walk(m.Kids)
+				case "dv":
+					c.Comps = append(c.Comps, u("tobits", m))
+				default:
+					c.Comps = append(c.Comps, m)
+				}
+			}
+		}
+		walk(t.Kids)
 	case "memb":
 		if err := need(0); err != nil {
 			return nil, err
@@ -576,7 +603,77 @@ func (g *gen) dv() *N {
 	return rt.leaf(rt.fields[g.r.Intn(len(rt.fields))])
 }
 
+func (g *gen) float() *N {
+	r := g.r
+	k := []int{1, -1, 1, 3, -3, 511, 513, 255, 0, 2, 512}[r.Intn(11)]
+	if r.Intn(4) == 0 {
+		k = r.Range(-20, 530)
+	}
+	return nd("fh", []string{strconv.Itoa(k)})
+}
+
+// catArr: an array for the `cat` law: zero (and truncating-to-zero) members at random positions, next to
+// members that keep toBitReaderEx off its flat fast path (nested array, binary, decode value)
+func (g *gen) catArr(d int) *N {
+	r := g.r
+	n := r.Range(2, 5)
+	ks := make([]*N, n)
+	zero := func() *N {
+		switch r.Intn(6) {
+		case 0:
+			return nd("fh", []string{[]string{"1", "-1", "0"}[r.Intn(3)]})
+		case 1:
+			v := r.Intn(256)
+			return nd("sub", []string{strconv.Itoa(v)}, nd("idx", []string{"0"}, u("tobytes", lit(strconv.Itoa(v)))))
+		default:
+			return lit("0")
+		}
+	}
+	slow := func() *N {
+		switch r.Intn(5) {
+		case 0:
+			return arr(lit(strconv.Itoa(r.Intn(256))))
+		case 1:
+			if d >= 2 {
+				return g.catArr(d - 1)
+			}
+			return arr()
+		case 2:
+			if len(g.roots) > 0 {
+				return g.dv()
+			}
+			return u("tobits", lit(g.intStr(false)))
+		case 3:
+			return u("tobytes", g.str())
+		default:
+			return u("tobits", lit(g.intStr(false)))
+		}
+	}
+	for i := range ks {
+		switch g.pick(30, 25, 25, 10, 10) {
+		case 0:
+			ks[i] = zero()
+		case 1:
+			ks[i] = slow()
+		case 2:
+			ks[i] = lit(g.intStr(true))
+		case 3:
+			ks[i] = g.str()
+		default:
+			ks[i] = g.V(min(d-1, 2), true)
+		}
+	}
+	if r.Intn(7) != 0 {
+		ks[r.Intn(n)] = slow()
+		ks[(r.Intn(n-1)+1+r.Intn(n))%n] = zero() // may overwrite the slow member: flat lists stay in the mix
+	}
+	return arr(ks...)
+}
+
 func (g *gen) leaf(inArr bool) *N {
+	if inArr && g.r.Intn(30) == 0 {
+		return g.float()
+	}
 	dvw := 14
 	if len(g.roots) == 0 {
 		dvw = 0
@@ -901,6 +998,10 @@ func main() {
 		"split 1 (tobytesr (i 3855))",
 		"pad 8 2 (tobits (i 5))",
 		"keys (bytes (sl 3 14 (tobits (s 616263))))",
+		"cat (a (i 1) (i 0) (a (i 2)))",
+		"cat (a (s 61) (i 0) (tobytes (s 62)))",
+		"cat (a (a (i 255)) (i 0) (i 0) (a (i 255)))",
+		"cat (a (fh 1) (a))",
 		"memb (sub 98 (idx 0 (tobytes (s 61))))",
 		"memb (sub 18446744073709551617 (i 18446744073709551616))",
 		"memb (sub 3 (i 2))",
@@ -950,6 +1051,10 @@ func main() {
 	for i := 0; i < nEv; i++ {
 		t := g.Top(g.depth())
 		c := must(mkCase("ev", nil, t))
+		if (t.Op == "tobits" || t.Op == "tobytes") && t.Kids[0].Op == "a" {
+			// a conversion of an array literal: also evaluate the concatenation statement on it
+			c = must(mkCase("cat", nil, t.Kids[0]))
+		}
 		rn.add(c)
 		if i < 4 {
 			q, _ := t.JQ()
@@ -972,6 +1077,8 @@ func main() {
 		rn.add(must(mkCase("expl", nil, g.B(d))))
 		rn.add(must(mkCase("num", []string{g.intStr(false)}, nil)))
 		rn.add(must(mkCase("memb", nil, g.computedNum())))
+		rn.add(must(mkCase("cat", nil, g.catArr(3))))
+		rn.add(must(mkCase("cat", nil, g.catArr(1))))
 		if i%6 == 0 {
 			bads := []string{"(z)", "(t)", "(f)", "(o)", "(a (z))", "(a (i 1) (t))", "(a (a (o)))", "(a (s 61) (a (f)))"}
 			t, _ := ParseSexpr(bads[r.Intn(len(bads))])
